@@ -5,6 +5,7 @@ from __future__ import annotations
 import numpy as np
 
 from .. import genwork, oracles
+from ..core import call_watchdog
 from ..ref import Graph
 
 LEVEL = "exploration"
@@ -56,8 +57,9 @@ def run(ctx):
         cseed = ctx.case_seed("rng", i)
         case = dict(gen=gen, shape=(R, C), kwargs=kw, rng_seed=cseed)
         genwork.seed_library_rngs(cseed)
-        with ctx.guard(f"C12/{gen}/call", case):
+        with ctx.guard(f"C12/{gen}/call", case), call_watchdog(ctx, 120, f"C12/{gen} {R}x{C}"):
             maze = GENERATORS_MAP[gen](np.array([R, C]), **kw)
+            # (if the watchdog fires the block is left here and the case is reported as inconclusive)
             ctx.ev()
             g = Graph(maze.connection_list)
             oracles.check_c12(ctx, gen, (R, C), kw, maze, g, case)
